@@ -697,6 +697,7 @@ func (p *Printer) wordPart(wp, next WordPart) {
 			switch {
 			case len(name) > 1 && !ValidName(name): // ${10}
 			case ValidName(name + litCont): // ${var}cont
+			case litCont == "[": // $var[index] is an index in zsh
 			default:
 				x2 := *wp
 				x2.Short = true
